@@ -49,6 +49,15 @@ def handle (op : String) (a : Args) : Option String :=
   | "deframe" => do
     let d ← a.bytes "data"
     pure (showDeframe (deframe d))
+  | "stream" => do
+    let d ← a.bytes "data"
+    let (ps, e) := deframeAll (d.length + 1) d
+    let items := ps.map fun (h, b) => s!"{if h.newFormat then 1 else 0}.{h.tag}.{showCk b}"
+    let fin := match e with
+      | none => "end"
+      | some .eof => "eof"
+      | some .bad => "err"
+    pure ("ok:" ++ ";".intercalate (items ++ [fin]))
   | "emit" => do
     let tag ← a.nat "tag"
     let k ← a.nat "k"
